@@ -70,6 +70,10 @@ class Summ:
             return B.Not(B.atom(("pred", ("call", dual, t[2], None))))
         if k == "call" and t[1] in ("std::cmp::PartialOrd::ge", "std::cmp::PartialOrd::gt") and len(t[2]) == 2:
             return B.atom(("pred", ("call", t[1], t[2], None)))
+        if k == "call" and t[1].endswith(("<impl [T]>::contains", "Vec::<T, A>::contains")) and len(t[2]) == 2 and t[2][0][0] == "agg" and t[2][0][1] == "array" \
+                and t[2][0][2] != "repeat":
+            # membership in a literal list: one equality per element
+            return B.Or(*[self.bool_formula(body, ("bin", "Eq", t[2][1], c), depth + 1) for c in t[2][0][3]])
         if k == "call":
             tb = self.crate.bodies.get(t[1])
             if tb is not None and tb.local_ty(0) == "bool":
@@ -333,13 +337,23 @@ class Summ:
         return B.rename(f, lambda key: self.render_key(key, names))
 
     # ---------------------------------------------------------------- reports
-    def reports(self, body, obj=None, depth=0):
+    def reports(self, body, obj=None, depth=0, _returned=False):
         """[(reported term, formula, site)] for everything put into the set `obj` (default: the returned set)"""
         if depth > 6:
             raise Unanalysable("report nesting too deep")
         R = obj if obj is not None else body.val_local(0)
         out = []
-        if obj is None and R[0] == "call" and R[1] in self.crate.bodies and self.crate.bodies[R[1]].local_ty(0).startswith("std::collections::"):
+        if obj is None and R[0] == "phi":
+            # several returned objects (guard clauses returning an empty set early, then the real result): each one contributes what is put into
+            # it, under the condition of the path on which it is the one returned
+            for bb, v in S.def_table(body, 0):
+                if v[0] in ("unknown", "phi"):
+                    raise Unanalysable("returned set defined by %s" % show(v)[:40])
+                g = self.guard(body, bb)
+                for (t, f, s) in self.reports(body, v, depth + 1, _returned=True):
+                    out.append((t, B.And(g, f), s))
+            return out
+        if (obj is None or _returned) and R[0] == "call" and R[1] in self.crate.bodies and self.crate.bodies[R[1]].local_ty(0).startswith("std::collections::"):
             # thin wrapper: the result is another local function's result
             fb = self.crate.bodies[R[1]]
             env = {i + 1: a for i, a in enumerate(R[2])}
